@@ -511,6 +511,16 @@ pub fn run_property<P: Property>(ctx: &RunCtx) -> i32 {
     for (k, v) in P::extra_coverage() {
         coverage.insert(k, v);
     }
+    // statistics of the libFuzzer campaign that ./run thorough ran just before (engine E2), if any
+    if ctx.tier == Tier::Thorough {
+        let f = verif_root().join("work").join(format!("fuzz-{}.json", P::ID));
+        let fresh = std::fs::metadata(&f).and_then(|m| m.modified()).ok().and_then(|t| t.elapsed().ok()).map(|d| d.as_secs() < 6 * 3600).unwrap_or(false);
+        if fresh {
+            if let Ok(v) = serde_json::from_str::<serde_json::Value>(&std::fs::read_to_string(&f).unwrap_or_default()) {
+                coverage.insert("fuzz_campaign".into(), v);
+            }
+        }
+    }
     let evidence = serde_json::json!({
         "property_id": P::ID,
         "tier": ctx.tier.name(),
